@@ -342,6 +342,8 @@ func RunByz(sc ByzScenario, slot int) (out *ByzOutcome) {
 			}
 			if err != nil {
 				lg.add("connect %s: %v", z.Name, err)
+			} else if !z.WaitConnected(3 * time.Second) {
+				lg.add("connect %s: handshake did not complete", z.Name)
 			} else {
 				lg.add("connected %s", z.Name)
 			}
@@ -447,7 +449,10 @@ func RunByz(sc ByzScenario, slot int) (out *ByzOutcome) {
 					if !z.Connected() {
 						if sc.Z[i].Dials {
 							z.DialTo(v.Addr())
+						} else if z.l != nil {
+							v.Connect(z.l.Addr().String())
 						}
+						z.WaitConnected(2 * time.Second)
 					}
 					if err := doRelay(w, z, v, rs.Kind, n); err != nil {
 						lg.add("relay %s by %s: %v", rs.Kind, z.Name, err)
